@@ -45,11 +45,15 @@ func (e *kvElection) watchLoop(ctx context.Context) {
 				// When watcher closes, check if key still exists
 				// If not, trigger re-election
 				if !e.IsLeader() {
-					go e.checkKeyAndReelect(ctx)
+					e.wg.Add(1)
+					go func() {
+						defer e.wg.Done()
+						e.checkKeyAndReelect(ctx)
+					}()
 				}
 				return
 			}
-			e.handleWatchEvent(entry)
+			e.handleWatchEvent(ctx, entry)
 		case <-checkTicker.C:
 			// Periodic check: if we're a follower and key doesn't exist, trigger re-election
 			// This handles cases where NATS watchers don't send deletion events
@@ -77,7 +81,7 @@ func (e *kvElection) checkKeyAndReelect(ctx context.Context) {
 				zap.Error(err),
 			)...,
 		)
-		go e.attemptAcquireWithRetry(ctx)
+		e.goAcquire(ctx)
 		return
 	}
 
@@ -88,7 +92,7 @@ func (e *kvElection) checkKeyAndReelect(ctx context.Context) {
 		log.Debug("key_empty_triggering_reelection",
 			e.logWithContext(ctx)...,
 		)
-		go e.attemptAcquireWithRetry(ctx)
+		e.goAcquire(ctx)
 		return
 	}
 
@@ -121,9 +125,24 @@ func (e *kvElection) checkKeyAndReelect(ctx context.Context) {
 	}
 }
 
+// goAcquire starts an acquisition round that Stop waits for (up to its
+// time-out), so that a round cannot go on issuing store operations after the
+// election was stopped. It is only called from goroutines that are themselves
+// tracked by the wait group, which keeps the Add safe against a concurrent Wait.
+func (e *kvElection) goAcquire(ctx context.Context) {
+	if ctx.Err() != nil {
+		return
+	}
+	e.wg.Add(1)
+	go func() {
+		defer e.wg.Done()
+		e.attemptAcquireWithRetry(ctx)
+	}()
+}
+
 // handleWatchEvent processes watch events and triggers re-election when the key is deleted
 // or becomes empty. It also updates the leader ID when a new leader is detected.
-func (e *kvElection) handleWatchEvent(entry Entry) {
+func (e *kvElection) handleWatchEvent(ctx context.Context, entry Entry) {
 	if entry == nil {
 		log := e.getLogger()
 		log.Debug("watch_event_key_deleted",
@@ -131,7 +150,7 @@ func (e *kvElection) handleWatchEvent(entry Entry) {
 				zap.String("key", e.key),
 			)...,
 		)
-		go e.attemptAcquireWithRetry(e.ctx)
+		e.goAcquire(ctx)
 		return
 	}
 
@@ -143,7 +162,7 @@ func (e *kvElection) handleWatchEvent(entry Entry) {
 				zap.String("key", e.key),
 			)...,
 		)
-		go e.attemptAcquireWithRetry(e.ctx)
+		e.goAcquire(ctx)
 		return
 	}
 
